@@ -177,6 +177,19 @@ def source_tables_coq(ck):
         conj.append("(Z.of_nat max_key_len =? %d)" % vals["MaxTagNameLength"])
         conj.append("(Z.of_nat max_key_len =? %d)" % vals["MaxFieldNameLength"])
         conj.append("(max_tagval_len =? %d)" % vals["MaxTagValueLength"])
+    # the precision table of serveWrite (the harnesses send these names and the model is given the factor)
+    hd = src("lib/util/lifted/influx/httpd/handler.go")
+    m = re.search(r"switch precision \{(.*?)\n\t\}", hd, re.S)
+    table = {}
+    if m:
+        for names, val in re.findall(r"case ((?:\"[^\"]*\"(?:,\s*)?)+):\s*tsMultiplier = ([0-9e* ]+)", m.group(1)):
+            v = 1
+            for f in val.split("*"):
+                v *= int(float(f))
+            for nm in re.findall(r'"([^"]*)"', names):
+                table[nm] = v
+    if table != {"ns": 1, "u": 10**3, "us": 10**3, "µ": 10**3, "ms": 10**6, "s": 10**9, "m": 6 * 10**10, "h": 36 * 10**11}:
+        errs.append("precision table of serveWrite (found %r)" % (table,))
     pw = src("coordinator/points_writer.go")
     wh = src("coordinator/write_helper.go")
     m1 = re.search(r'fields\[i\]\.Key == "(\w+)"', pw)
@@ -400,7 +413,7 @@ def main(ck):
         phases[name] = round(time.time() - t0, 1)
         t0 = time.time()
     ck.coq_audit(["C06"])
-    ok = ck.coq_build(["C06/Proofs.vo", "C06/ProofsInt.vo", "C06/ProofsDec.vo", "C06/ProofsRender.vo", "C06/ProofsStream.vo", "C06/ProofsFloat.vo", "C06/ProofsFloatAll.vo", "C06/ProofsWriter.vo", "C06/Corr.vo"])
+    ok = ck.coq_build(["C06/Proofs.vo", "C06/ProofsInt.vo", "C06/ProofsDec.vo", "C06/ProofsRender.vo", "C06/ProofsStream.vo", "C06/ProofsFloat.vo", "C06/ProofsFloatAll.vo", "C06/ProofsDecParse.vo", "C06/ProofsWriter.vo", "C06/Corr.vo"])
     if ok:
         ck.coq_props(["C06/Props.v", "C06/Refuted.v"])
     lap("coq_build_and_props")
